@@ -119,6 +119,11 @@ func (s *PfcpServer) serveUSAReport(addr net.Addr, lSeid uint64, usars []report.
 			))
 	}
 
+	if len(req.UsageReport) == 0 {
+		// every report was for a URR this session does not have: nothing to announce
+		return nil
+	}
+
 	err = s.sendReqTo(req, addr)
 	return errors.Wrap(err, "serveUSAReport")
 }
